@@ -291,6 +291,9 @@ class ProgGen:
         fn = "inc%s_%d.h" % (self.actor if self.actor is not None else "x", self.incno)
         ln = self.linebase + r.randrange(1000, 90000)
         x = r.random()
+        if r.random() < 0.2:
+            # a marker text that other programs use too (no file name, small number)
+            return r.choice(["#line 100", "# 9", "#line 42", "# 100"])
         if x < 0.4:
             return '#line %d "%s"' % (ln, fn)
         if x < 0.7:
@@ -433,7 +436,7 @@ STATEFUL_SNIPPETS = [
     ["void f(void) {", "#pragma omp parallel", " for (;;) {", "#pragma inner", " } }"],
     ["void f(void) { if (1)\n#pragma a\n#pragma b\n x = 1; }"],
     ['# 10 "one.h" 1', "int x;", '# 20 "two.h" 2', "int y;", '#line 30', "int f(void) { return x; }"],
-    ["typedef struct S0 { int x; } T;", "int f(void) { return sizeof(T) + sizeof (T){1} + (T){.x = 2}.x; }"],
+    ["typedef struct S0 { int x; } T;", "int f(void) { return sizeof(T) + ((T){1}).x + (T){.x = 2}.x; }"],
     ["enum E0 { T, U = T + 1 };", "int x = (T) + 1;", "int g(void) { return (U)(1); }"],
     ["int f(a, b) int a; char b; { return a + b; }"],
     ["int f(int x) { switch (x) { case 1: case 2: x++; break; default: { int T; } } return 0; }"],
@@ -445,6 +448,28 @@ STATEFUL_SNIPPETS = [
     ["int x = _Alignof(int);", "_Alignas(16) char y[4];", "_Static_assert(sizeof(int) >= 2, \"m\");"],
     ["int f(void) { return ({ int T = 1; T; }); }"],
     ["typedef int T;", "_Pragma(\"omp x\")", "T f(T x) {", "_Pragma(\"inside\")", " return x; }"],
+    # one snippet per construct family, so that truncation / aborts land inside each of them
+    ["typedef int T;", "int scale(v, k)\n  int v;\n  long k;\n{\n  return v * k;\n}", "T after;"],
+    ["int g(a, b, c) int a, b; char c; { return a; }", "typedef char a2;"],
+    ["struct S1 { int x : 3; unsigned : 0; struct { int a; union { int b; float c; }; } in; } s1;"],
+    ["enum E1 { x = 1, y = x << 2, f = sizeof(int), };", "int arr[f];"],
+    ["int m[2][3] = { {1, 2, 3}, [1] = { [2] = 7 } };", "struct S0 { int x, y; } p = { .y = 2, .x = 1 };"],
+    ["int f(int n, int a[static n], int b[const 3], int c[*]);", "void g(int (*cb)(int, ...), ...);"],
+    ["void f(void) { for (int i = 0, j = 1; i < j; i++, j--) { continue; } do ; while (0); }"],
+    ["void f(int x) { switch (x) case 1: x++; switch (x) { default: ; } }"],
+    ["void f(void) { L0: L1: goto L0; if (1) L2: ; else L3: ; }"],
+    ["_Alignas(int) char buf[8];", "_Alignas(16) struct S2 { _Alignas(8) char c; } al;", "int k = _Alignof(struct S2);"],
+    ["_Static_assert(sizeof(int) == 4, \"int\");", "void f(void) { _Static_assert(1); }"],
+    ["struct S1 { int a; struct { int b; } in; };", "int o1 = offsetof(struct S1, in.b);", "int o2 = offsetof(struct S1, a);"],
+    ["typedef struct S0 { int x; } T;", "T f(void) { return (T){ .x = ((T){3}).x }; }", "int z = sizeof(T);"],
+    ["void f(void) { int a = ({ int b = 2; b * 2; }); (void)a; }"],
+    ["_Noreturn void die(void);", "inline static int sq(int x) { return x * x; }", "_Thread_local int tl;", "extern __int128 big;"],
+    ["char c1 = 'a', c2 = '\\n', c3 = '\\x41';", "int w = L'x';", "char *s = \"a\\\"b\" \"c\";", "char *u = u8\"k\";"],
+    ["#line 100", "int x;", "# 9", "int y;", "#line 100", "int f(void) { return x + y; }"],
+    ["# 1 \"a.h\" 1", "typedef int T;", "# 5 \"top.c\" 2", "T v;", "#line 100", "T w;"],
+    ["#pragma once", "#pragma pack(push, 1)", "struct S0 { char c; int i; };", "#pragma pack(pop)", "int tail;"],
+    ["void f(void) {\n#pragma omp parallel for\n  for (;;)\n#pragma unroll\n    while (1)\n      ;\n}"],
+    ["int (*fp)(int);", "int (*(*fpp)(void))[3];", "int *(*arr[4])(int *, char **);", "typedef int (*T)(int (*)(int));"],
 ]
 
 # Programs that fail while state is in flight.
